@@ -5,7 +5,7 @@
    contract admits satisfies the properties, and emits each call as a case for replay
    into the real code (P1). *)
 EXTENDS Props, Json
-CONSTANTS N, K, Fns, BosMode
+CONSTANTS N, K, Fns, BosMode, QA
 VARIABLES st
 
 G(i) == 200 + i                       \* distinguishable garbage per cell
@@ -103,7 +103,45 @@ NextXform ==
        IN /\ (dl > 0 \/ dterm) => (d # NULLP /\ d + dl <= N + (IF dterm THEN 0 ELSE 1))
           /\ Truthful(c) /\ st' = c
 
-Next == st.fn = "init" /\ (NextStrCopy \/ NextMemCopy \/ NextFill \/ NextMemccpy \/ NextXform)
+(* query functions: dest string at st.d, src string flush at the end of the arena; two-operand functions
+   use a 3-letter alphabet (a case pair and a high-bit byte), one-operand functions a 7-letter one *)
+QAlpha2 == IF QA = 0 THEN {97, 233} ELSE {97, 65, 233}      \* QA: alphabet selector of the query scope
+QAlpha1 == {97, 65, 49, 32, 233, 102, 71}
+RECURSIVE QStrs(_, _)
+QStrs(A, k) == IF k = 0 THEN {<<>>} ELSE LET S == QStrs(A, k - 1) IN S \cup {Append(x, c) : x \in {t \in S : Len(t) = k - 1}, c \in A}
+TwoOp(fn) == fn \in CmpFns \cup MemCmpFns \cup FindFns \cup SpanFns \cup IdxFns \cup {"strprefix_s"}
+QHasSlen(fn) == fn \in MemCmpFns \cup FindFns \cup SpanFns \cup {"wcscmp_s", "wcsncmp_s"}
+QWidth(fn) == IF fn \in {"wcscmp_s", "wcsncmp_s", "wcsstr_s", "wcsnlen_s", "wmemcmp_s", "memcmp32_s"} THEN 4 ELSE IF fn = "memcmp16_s" THEN 2 ELSE 1
+NextQuery ==
+  /\ st.f \in StrQueryFns
+  /\ \E dmax \in Sizes \cup {K + 1}, dstr \in (IF TwoOp(st.f) THEN QStrs(QAlpha2, K) ELSE QStrs(QAlpha1, 2)), dterm \in BOOLEAN,
+        flags \in {0, 1} :
+     \E dbos \in BosChoices(dmax), sstr \in (IF TwoOp(st.f) THEN QStrs(QAlpha2, K) ELSE {<<>>}), sterm \in (IF TwoOp(st.f) THEN BOOLEAN ELSE {TRUE}),
+        snull \in (IF TwoOp(st.f) THEN BOOLEAN ELSE {TRUE}),
+        slen \in (IF QHasSlen(st.f) THEN Sizes \cup {K + 1} ELSE {0}),
+        ch \in (IF st.f \in ChrFns THEN {97, 65, 233, 0, 300} ELSE {0}),
+        cnt \in (IF st.f = "wcsncmp_s" THEN {0, 1, K, HUGE} ELSE {0}) :
+       LET d == st.d
+           s == IF snull THEN NULLP ELSE N - Len(sstr) - (IF sterm THEN 1 ELSE 0) + 1
+           a0 == IF d # NULLP THEN Place(Blank, d, dstr, dterm) ELSE Blank
+           a == IF s # NULLP THEN Place(a0, s, sstr, sterm) ELSE a0
+           c == [fn |-> st.f, w |-> QWidth(st.f), d |-> d, dmax |-> dmax, s |-> s, slen |-> slen, c |-> ch, n |-> cnt,
+                 dbos |-> dbos, sbos |-> UNK, flags |-> flags, pre |-> a, slack |-> 1]
+       IN /\ (d # NULLP => d + Len(dstr) + (IF dterm THEN 1 ELSE 0) <= (IF s = NULLP THEN N + 1 ELSE s))     \* operands do not overlap
+          /\ (d = NULLP => dstr = <<>> /\ ~dterm)
+          /\ (d <= 2 \/ (~TwoOp(st.f) /\ ~dterm /\ d + Len(dstr) = N + 1)) /\ (s = NULLP \/ s <= N)   \* one-operand: also flush against the end
+          /\ (flags = 1 => (dmax = 1 /\ dstr = <<>> /\ sstr = <<>> /\ st.f \notin ClassFns \cup LenFns \cup {"strprefix_s"}))
+          /\ (snull => (sstr = <<>> /\ sterm /\ (dstr = <<>> \/ ~TwoOp(st.f))))
+          \* truthful: dest has dmax elements before the source or the end of the arena
+          /\ (d # NULLP /\ dmax # HUGE) => (d + dmax - 1 <= N /\ (s = NULLP \/ d + dmax - 1 < s \/ ScanLen(a, d, dmax) < dmax))
+          /\ (d # NULLP /\ dbos # UNK) => d + dbos - 1 <= N
+          /\ (s # NULLP /\ QHasSlen(st.f) /\ slen # HUGE) => (s + Min(slen, Len(sstr) + (IF sterm THEN 1 ELSE 0)) - 1 <= N /\ (sterm \/ slen <= Len(sstr)))
+          /\ (s # NULLP /\ ~QHasSlen(st.f)) => sterm
+          /\ (st.f \in MemCmpFns /\ slen # HUGE /\ s # NULLP) => s + slen - 1 <= N
+          /\ (st.f \in MemCmpFns \cup {"strcmpfld_s"} /\ dmax # HUGE /\ s # NULLP) => s + dmax - 1 <= N
+          /\ st' = c
+
+Next == st.fn = "init" /\ (NextStrCopy \/ NextMemCopy \/ NextFill \/ NextMemccpy \/ NextXform \/ NextQuery)
 Spec == Init /\ [][Next]_st
 
 Cases(c) == {[c EXCEPT !.slack = x] : x \in {0, 1}}
